@@ -254,6 +254,13 @@ impl Op {
             Op::Join(_) => "join",
         }
     }
+    /// what the issuer really runs: a script collects with a `for` loop
+    pub fn kind_via(&self, via: Via) -> &'static str {
+        match (self, via) {
+            (Op::ToVec(_) | Op::Iter(_), Via::Script) => "for",
+            _ => self.kind(),
+        }
+    }
     /// token of the Lean driver's protocol
     fn lean(&self, via: Via) -> String {
         match self {
@@ -674,7 +681,7 @@ fn run_case<T: Elem>(
     case: &Case,
     funcs: &mut Option<script::Funcs<T>>,
     rep: &mut Report,
-) -> Vec<Rec>
+) -> (Vec<Rec>, bool)
 where
     T::Transformed: PartialEq,
 {
@@ -707,7 +714,13 @@ where
                         op.text(*via),
                         case.etype
                     ),
-                    &format!("vec:{}:{}:{}", op.kind(), via_s, what.split(':').next().unwrap_or("")),
+                    &format!(
+                        "vec:{}:{}:{}:{}",
+                        case.etype,
+                        op.kind_via(*via),
+                        via_s,
+                        what.split(':').next().unwrap_or("")
+                    ),
                     json!({"case": case.json(), "step": k, "got": format!("{got:?}"), "want": format!("{want:?}")}),
                 );
             }
@@ -719,6 +732,7 @@ where
     drop(imp);
     *funcs = script;
     if T::TRACKED && T::live() != live0 && !failed {
+        failed = true;
         rep.violation(
             &format!("after dropping every handle {} tracked elements remain", T::live() - live0),
             &format!("tokens:{}:leak-at-end", case.etype),
@@ -726,13 +740,14 @@ where
         );
     }
     if BAD.load(Ordering::SeqCst) != bad0 {
+        failed = true;
         rep.violation(
             "a tracked element was read or dropped after its drop",
             &format!("tokens:{}:use-after-drop", case.etype),
             json!({"case": case.json()}),
         );
     }
-    recs
+    (recs, failed)
 }
 
 /// the property: results and contents as a shared vector gives them, tokens balanced
@@ -923,7 +938,7 @@ fn random_case(etype: &'static str, seed: u64, idx: u64, via_mode: u64) -> Case 
                 }
             }
         };
-        // aliasing makes `lens` approximate: refresh from a shadow run is not needed for aiming
+        let op = if etype == "Tk0" && via == Via::Script && known_tk0_for(&op) { Op::Len(h) } else { op };
         ops.push((op, via));
     }
     Case { etype, ops }
@@ -959,6 +974,19 @@ fn boundary_cases(etype: &'static str) -> Vec<Case> {
     for n in [0u64, 1, 3, 4, 5, 7, 8, 9, 16, 17] {
         let xs: Vec<String> = (0..n).map(|i| v(i % 9).to_string()).collect();
         texts.push(format!("f:0:{} k:0 +:1:0:0 k:1 p:1:{} k:1 +:2:1:0 k:2", xs.join(","), v(1)));
+    }
+    if script::AVAILABLE {
+        // scripts: literal, methods, operators, for — and the alternation with Rust
+        texts.push(format!(
+            "f:0:{},{}@s p:0:{} c:1:0@s +:2:0:1@s =:0:2@s =:2:0 s:2:0:4@s g:2:0@s g:2:9@s ?:2:{}@s i:2:{}@s l:2@s e:2@s k:2@s d:0@s d:1 v:2 d:2@s",
+            v(1), v(2), v(3), v(3), v(3)
+        ));
+        if !z {
+            texts.push(format!("f:0:{},{},{}@s it:0@s v:0@s it:0 d:0@s", v(1), v(2), v(3)));
+        } else {
+            // the known finding's witness
+            texts.push("f:0:0,0 it:0@s".into());
+        }
     }
     texts
         .iter()
@@ -1047,6 +1075,9 @@ impl Block {
             if need.iter().any(|h| !bound[*h]) {
                 return None;
             }
+            if self.etype == "Tk0" && via_of(self.via_mode, i) == Via::Script && known_tk0_for(&self.alpha[d]) {
+                return None;
+            }
             if let Some(h) = unbinds {
                 bound[*h] = false;
             }
@@ -1057,22 +1088,34 @@ impl Block {
         }
         let ops = (0..self.len)
             .map(|i| {
-                let via = match self.via_mode {
-                    0 => Via::Rust,
-                    1 => Via::Script,
-                    _ => {
-                        if i % 2 == 0 {
-                            Via::Rust
-                        } else {
-                            Via::Script
-                        }
-                    }
-                };
-                (self.alpha[digits[i]].clone(), via)
+                (self.alpha[digits[i]].clone(), via_of(self.via_mode, i))
             })
             .collect();
         Some(Case { etype: self.etype, ops })
     }
+}
+
+fn via_of(mode: u64, i: usize) -> Via {
+    match mode {
+        0 => Via::Rust,
+        1 => Via::Script,
+        _ => {
+            if i % 2 == 0 {
+                Via::Rust
+            } else {
+                Via::Script
+            }
+        }
+    }
+}
+
+/// KNOWN FINDING (known_findings.json, C15-zst-for-tokens): a script `for` over a
+/// list of zero-sized tracked elements drops one element more per iteration
+/// than it clones. It is reproduced by one boundary history; everywhere else
+/// the generators leave that one combination out so that the token count stays
+/// meaningful for the rest of the history.
+fn known_tk0_for(op: &Op) -> bool {
+    matches!(op, Op::ToVec(_) | Op::Iter(_))
 }
 
 /// `None`: past the end; `Some(None)`: an index whose sequence is not expressible
@@ -1114,14 +1157,15 @@ impl Runner {
     fn new() -> Self {
         Runner { f_u8: None, f_u64: None, f_str: None, f_tk0: None, f_tk24: None }
     }
-    fn run(&mut self, idx: u64, case: &Case, rep: &mut Report) -> (usize, Vec<Rec>) {
+    fn run(&mut self, idx: u64, case: &Case, rep: &mut Report) -> (usize, Vec<Rec>, bool) {
         let needs_script = case.ops.iter().any(|(_, v)| *v == Via::Script);
         macro_rules! go {
             ($t:ty, $f:expr) => {{
                 if needs_script && $f.is_none() {
                     *$f = Some(script::compile::<$t>());
                 }
-                (<$t as Elem>::size(), run_case::<$t>(idx, case, $f, rep))
+                let (recs, failed) = run_case::<$t>(idx, case, $f, rep);
+                (<$t as Elem>::size(), recs, failed)
             }};
         }
         match case.etype {
@@ -1205,9 +1249,14 @@ fn worker_cases(seed: u64, tier: &str, from: u64, n: u64) {
         let Some(case) = c else { continue };
         println!("START {idx}");
         let _ = std::io::stdout().flush();
-        let (size, recs) = runner.run(idx, &case, &mut rep);
+        let (size, recs, failed) = runner.run(idx, &case, &mut rep);
         rep.evaluations += 1;
         class_of(&case, &recs, &mut rep);
+        if failed {
+            // the property already fails on the real code here; the model
+            // (which satisfies it) necessarily differs — reported once
+            continue;
+        }
         if idx % 9973 == 0 {
             rep.sample(json!({"case": case.json(), "last": format!("{:?}", recs.last())}));
         }
@@ -1279,10 +1328,10 @@ fn worker_one(etype: &str, ops: &str) {
     println!("START 0");
     let _ = std::io::stdout().flush();
     let mut runner = Runner::new();
-    let (size, recs) = runner.run(0, &case, &mut rep);
+    let (size, recs, failed) = runner.run(0, &case, &mut rep);
     rep.evaluations += 1;
     let line = case.lean(size);
-    let mut pending = vec![(case, recs, line)];
+    let mut pending = if failed { vec![] } else { vec![(case, recs, line)] };
     compare_with_model(&mut pending, &mut rep);
     rep.emit();
 }
@@ -1403,6 +1452,7 @@ fn main() {
             ));
             rep.emit();
         }
+        Some("zstprobe") => script::zst_probe(),
         Some("replay") => {
             let v: serde_json::Value = serde_json::from_str(&args[2]).expect("json");
             let c = v.get("case").unwrap_or(&v);
